@@ -135,6 +135,30 @@ func (w *world) exec(line string) string {
 			return fmt.Sprintf("stored %d %d %s", w.rel(got.EndsAt), delta, w.dump())
 		}
 		return fmt.Sprintf("dropped - %d %s", delta, w.dump())
+	case "mputb":
+		// one Put call with several alerts of one name (a scrape batch): each is admitted or refused on its own
+		var as []*types.Alert
+		for _, it := range strings.Split(t[3], ";") {
+			f := strings.Split(it, ",")
+			id, _ := strconv.Atoi(f[0])
+			as = append(as, w.alert(t[2], id, hx.Atoi64(f[1])))
+		}
+		c0 := w.limited()
+		if err := w.mem.Put(context.Background(), as...); err != nil {
+			return "error:" + hx.Hex(err.Error())
+		}
+		synctest.Wait()
+		delta := int(w.limited() - c0)
+		res := make([]string, len(as))
+		for i, a := range as {
+			got, err := w.mem.Get(a.Fingerprint())
+			if err == nil && got.UpdatedAt.Equal(a.UpdatedAt) {
+				res[i] = fmt.Sprintf("s:%d", w.rel(got.EndsAt))
+			} else {
+				res[i] = "d"
+			}
+		}
+		return fmt.Sprintf("%s %d %s", strings.Join(res, ","), delta, w.dump())
 	case "wait":
 		return w.dump()
 	}
@@ -236,7 +260,17 @@ func runCase(t *testing.T, tr *hx.Trace, id int, r *rand.Rand, script []string) 
 				}
 			} else {
 				do(fmt.Sprintf("wait %d", now))
-				do(fmt.Sprintf("mput %d %s %d %d", now, name, aid, ends))
+				if r.IntN(4) == 0 {
+					// a batch: 2-4 distinct alerts of the name, new ones and re-sends mixed in random order
+					perm := r.Perm(nIDs)[:2+r.IntN(3)]
+					items := make([]string, len(perm))
+					for i, x := range perm {
+						items[i] = fmt.Sprintf("%d,%d", x, (now/minute)*minute+hx.Pick(r, offs))
+					}
+					do(fmt.Sprintf("mputb %d %s %s", now, name, strings.Join(items, ";")))
+				} else {
+					do(fmt.Sprintf("mput %d %s %d %d", now, name, aid, ends))
+				}
 			}
 			now += int64(time.Millisecond)
 		}
